@@ -282,8 +282,10 @@ class Problem:
             >>> prob.subject_to(x >= 0)  # Adds 100 constraints
         """
         if isinstance(constraint, list):
-            for c in constraint:
-                self._constraints.append(self._validate_constraint(c))
+            # Validate the whole list first: an invalid entry must not leave the
+            # earlier ones appended behind still-populated caches
+            validated = [self._validate_constraint(c) for c in constraint]
+            self._constraints.extend(validated)
         else:
             self._constraints.append(self._validate_constraint(constraint))
         self._invalidate_caches()
